@@ -28,12 +28,18 @@ var steps = []time.Duration{0, 1, time.Second - 1, time.Second, time.Second + 1,
 type sid struct {
 	typ  gostatsd.MetricType
 	name string
+	tag  string // the series' single tag (also its tags key): two series of one name differ only here
 }
 
+// two series share each first name (c1, t1, g1, s1) and differ in their tag: expiry is per series, not per name
 var series = []sid{
-	{gostatsd.COUNTER, "c1"}, {gostatsd.COUNTER, "c2"}, {gostatsd.TIMER, "t1"}, {gostatsd.TIMER, "t2"},
-	{gostatsd.GAUGE, "g1"}, {gostatsd.GAUGE, "g2"}, {gostatsd.SET, "s1"}, {gostatsd.SET, "s2"},
+	{gostatsd.COUNTER, "c1", "k:v"}, {gostatsd.COUNTER, "c1", "k:w"}, {gostatsd.COUNTER, "c2", "k:v"},
+	{gostatsd.TIMER, "t1", "k:v"}, {gostatsd.TIMER, "t1", "k:w"}, {gostatsd.TIMER, "t2", "k:v"},
+	{gostatsd.GAUGE, "g1", "k:v"}, {gostatsd.GAUGE, "g1", "k:w"}, {gostatsd.GAUGE, "g2", "k:v"},
+	{gostatsd.SET, "s1", "k:v"}, {gostatsd.SET, "s1", "k:w"}, {gostatsd.SET, "s2", "k:v"},
 }
+
+func (s sid) String() string { return s.name + "{" + s.tag + "}" }
 
 type mstate struct {
 	live     bool
@@ -80,7 +86,7 @@ func TestExpiryHistories(t *testing.T) {
 		t.Repeat(map[string]func(*rapid.T){
 			"datapoint": func(t *rapid.T) {
 				s := rapid.SampledFrom(series).Draw(t, "series")
-				m := &gostatsd.Metric{Name: s.name, Type: s.typ, Rate: 1, Timestamp: gostatsd.Nanotime(now.UnixNano()), Tags: gostatsd.Tags{"k:v"}}
+				m := &gostatsd.Metric{Name: s.name, Type: s.typ, Rate: 1, Timestamp: gostatsd.Nanotime(now.UnixNano()), Tags: gostatsd.Tags{s.tag}}
 				st := model[s]
 				if !st.live {
 					*st = mstate{live: true, wasGone: st.wasGone, reborn: st.wasGone}
@@ -109,7 +115,7 @@ func TestExpiryHistories(t *testing.T) {
 					}
 					st.members[m.StringValue] = true
 				}
-				history = append(history, fmt.Sprintf("@%v datapoint %s", now.Sub(time.Unix(1_700_000_000, 0)), s.name))
+				history = append(history, fmt.Sprintf("@%v datapoint %s", now.Sub(time.Unix(1_700_000_000, 0)), s))
 				pending.Receive(m)
 				if rapid.Bool().Draw(t, "deliver-now") {
 					deliver()
@@ -130,26 +136,26 @@ func TestExpiryHistories(t *testing.T) {
 				agg.Process(func(mm *gostatsd.MetricMap) {
 					note := func(s sid, desc string) {
 						if _, ok := got[s]; ok {
-							dup = s.name
+							dup = s.String()
 						}
 						got[s] = desc
 					}
-					mm.Counters.Each(func(n, _ string, c gostatsd.Counter) {
-						note(sid{gostatsd.COUNTER, n}, fmt.Sprintf("%d/%v", c.Value, c.PerSecond))
+					mm.Counters.Each(func(n, tk string, c gostatsd.Counter) {
+						note(sid{gostatsd.COUNTER, n, tk}, fmt.Sprintf("%d/%v", c.Value, c.PerSecond))
 					})
-					mm.Gauges.Each(func(n, _ string, g gostatsd.Gauge) { note(sid{gostatsd.GAUGE, n}, fmt.Sprintf("%v", g.Value)) })
-					mm.Sets.Each(func(n, _ string, s gostatsd.Set) {
+					mm.Gauges.Each(func(n, tk string, g gostatsd.Gauge) { note(sid{gostatsd.GAUGE, n, tk}, fmt.Sprintf("%v", g.Value)) })
+					mm.Sets.Each(func(n, tk string, s gostatsd.Set) {
 						var ms []string
 						for m := range s.Values {
 							ms = append(ms, m)
 						}
 						sort.Strings(ms)
-						note(sid{gostatsd.SET, n}, strings.Join(ms, ","))
+						note(sid{gostatsd.SET, n, tk}, strings.Join(ms, ","))
 					})
-					mm.Timers.Each(func(n, _ string, tm gostatsd.Timer) {
+					mm.Timers.Each(func(n, tk string, tm gostatsd.Timer) {
 						vs := append([]float64(nil), tm.Values...)
 						sort.Float64s(vs)
-						note(sid{gostatsd.TIMER, n}, fmt.Sprintf("%d/%v/%v/p%d", tm.Count, tm.PerSecond, vs, len(tm.Percentiles)))
+						note(sid{gostatsd.TIMER, n, tk}, fmt.Sprintf("%d/%v/%v/p%d", tm.Count, tm.PerSecond, vs, len(tm.Percentiles)))
 					})
 				})
 				agg.Reset()
@@ -166,10 +172,10 @@ func TestExpiryHistories(t *testing.T) {
 					st := model[s]
 					desc, reported := got[s]
 					if st.live && !reported {
-						fail("C09:missing-before-expiry", "series %s (%v) not reported although its last data is %v old and its expiry is %v", s.name, s.typ, time.Duration(now.UnixNano()-st.lastData), exp[s.typ])
+						fail("C09:missing-before-expiry", "series %s (%v) not reported although its last data is %v old and its expiry is %v", s, s.typ, time.Duration(now.UnixNano()-st.lastData), exp[s.typ])
 					}
 					if !st.live && reported {
-						fail("C09:reported-after-expiry", "series %s (%v) reported (%s) after it had expired and without new data", s.name, s.typ, desc)
+						fail("C09:reported-after-expiry", "series %s (%v) reported (%s) after it had expired and without new data", s, s.typ, desc)
 					}
 					if !st.live {
 						continue
@@ -186,7 +192,7 @@ func TestExpiryHistories(t *testing.T) {
 							}
 						}
 						if !okg {
-							fail("C09:gauge-value", "gauge %s reports %s, want one of %v", s.name, desc, st.gaugeC)
+							fail("C09:gauge-value", "gauge %s reports %s, want one of %v", s, desc, st.gaugeC)
 						}
 						want = desc
 					case gostatsd.SET:
@@ -206,7 +212,7 @@ func TestExpiryHistories(t *testing.T) {
 						want = fmt.Sprintf("%d/%v/%v/p%d", len(vs), float64(len(vs))/10, vs, np)
 					}
 					if desc != want {
-						fail("C09:idle-or-data-values", "series %s (%v) reports %s want %s", s.name, s.typ, desc, want)
+						fail("C09:idle-or-data-values", "series %s (%v) reports %s want %s", s, s.typ, desc, want)
 					}
 					st.seenFl++
 					// reset per-flush data
